@@ -195,7 +195,7 @@ def uniq(sequence: Sequence[Any], key: object = None) -> list[object]:
     # to handle sequences containing unhashable objects, like dictionaries.
 
     # This is probably quite slow.
-    if key is not None:
+    if key is not None and not is_undefined(key):
         keys = []
         result = []
         for obj in sequence:
@@ -221,7 +221,7 @@ def uniq(sequence: Sequence[Any], key: object = None) -> list[object]:
 @sequence_filter
 def compact(sequence: Sequence[Any], key: object = None) -> list[object]:
     """Return a copy of _sequence_ with any NULL values removed."""
-    if key is not None:
+    if key is not None and not is_undefined(key):
         try:
             return [itm for itm in sequence if itm[key] is not None]
         except TypeError as err:
